@@ -509,6 +509,40 @@ func (eng *Engine) signatureFor(ct *Contract, fn *ssa.Function) *sigInfo {
 		si := &sigInfo{recv: s.Recv(), params: s.Params(), results: s.Results(), freeVars: fn.FreeVars}
 		return si
 	}
+	if ct.FnType && strings.HasPrefix(ct.FnParam, "result:") {
+		if f := eng.fnByKey[ct.FnParamOf]; f != nil {
+			rn := ct.FnParam[len("result:"):]
+			rs := f.Signature.Results()
+			for i := 0; i < rs.Len(); i++ {
+				if rs.At(i).Name() == rn || fmt.Sprintf("result%d", i) == rn {
+					if s, ok := rs.At(i).Type().Underlying().(*types.Signature); ok {
+						var pk *types.Package
+						if f.Pkg != nil {
+							pk = f.Pkg.Pkg
+						}
+						return &sigInfo{recv: types.NewVar(token.NoPos, pk, "self", rs.At(i).Type()), params: s.Params(), results: s.Results()}
+					}
+				}
+			}
+		}
+		return nil
+	}
+	if ct.FnType && ct.FnParam != "" {
+		if f := eng.fnByKey[ct.FnParamOf]; f != nil {
+			for _, p := range f.Params {
+				if p.Name() == ct.FnParam {
+					if s, ok := p.Type().Underlying().(*types.Signature); ok {
+						var pk *types.Package
+						if f.Pkg != nil {
+							pk = f.Pkg.Pkg
+						}
+						return &sigInfo{recv: types.NewVar(token.NoPos, pk, "self", p.Type()), params: s.Params(), results: s.Results()}
+					}
+				}
+			}
+		}
+		return nil
+	}
 	if ct.FnType {
 		// contract of a named function type: key "type pkg.T"; self is the function value
 		parts := strings.Split(strings.TrimPrefix(ct.Key, "type "), ".")
